@@ -94,7 +94,11 @@ func makeCert(dir string) (*certMat, error) {
 // ---------- ports (below the kernel's ephemeral range) ----------
 var portRng = rand.New(rand.NewSource(int64(os.Getpid())*104729 + time.Now().UnixNano()))
 
+var portMu sync.Mutex
+
 func freePort(used map[int]bool) int {
+	portMu.Lock()
+	defer portMu.Unlock()
 	for i := 0; i < 2000; i++ {
 		p := 20000 + portRng.Intn(12000)
 		if used[p] {
@@ -208,6 +212,11 @@ type scenario struct {
 	Kinds     []int `json:"kinds"`
 	Inflight  []int `json:"inflight"`
 	Ctx       int   `json:"ctx"` // 0 ample, 1 expired, 2 expires while waiting
+	// DeadlineMs: deadline of the Stop context (0: 60 s for ctx 0, 50 ms for ctx 2).  HoldMs: how long the blocked
+	// handlers stay blocked after Stop has been called (0: 200 ms), i.e. how long the in-flight requests still need.
+	// ctx 0 with both set = "a deadline that is sufficient": longer than the requests need, by the given factor
+	DeadlineMs int `json:"stop_deadline_ms,omitempty"`
+	HoldMs     int `json:"requests_need_ms_after_stop,omitempty"`
 	Immediate bool  `json:"immediate"`
 	DelayUs   int   `json:"delay_us"`  // pause between Start returning and Stop (immediate scenarios)
 	Idle      bool  `json:"idle_conns"` // keep idle keep-alive connections open across Stop
@@ -238,6 +247,7 @@ type observation struct {
 }
 
 type gen struct {
+	mu sync.Mutex
 	w      *cw.Writer
 	rng    *rand.Rand
 	cert   *certMat
@@ -408,7 +418,7 @@ func (g *gen) live(sc *scenario) *observation {
 		o.envProblem = "NewServer: " + err.Error()
 		return o
 	}
-	g.lives++
+	g.count(func() { g.lives++ })
 	cl := g.newClients()
 	defer cl.close()
 
@@ -473,12 +483,20 @@ func (g *gen) live(sc *scenario) *observation {
 	var cancel context.CancelFunc
 	switch sc.Ctx {
 	case 0:
-		ctx, cancel = context.WithTimeout(context.Background(), 60*time.Second)
+		d := 60 * time.Second
+		if sc.DeadlineMs > 0 {
+			d = time.Duration(sc.DeadlineMs) * time.Millisecond
+		}
+		ctx, cancel = context.WithTimeout(context.Background(), d)
 	case 1:
 		ctx, cancel = context.WithCancel(context.Background())
 		cancel()
 	default:
-		ctx, cancel = context.WithTimeout(context.Background(), 50*time.Millisecond)
+		d := 50 * time.Millisecond
+		if sc.DeadlineMs > 0 {
+			d = time.Duration(sc.DeadlineMs) * time.Millisecond
+		}
+		ctx, cancel = context.WithTimeout(context.Background(), d)
 	}
 	defer cancel()
 	stopDone := make(chan struct{})
@@ -487,8 +505,12 @@ func (g *gen) live(sc *scenario) *observation {
 	go func() { stopErr = srv.Stop(ctx); close(stopDone) }()
 	if total > 0 {
 		if sc.Ctx == 0 {
-			// Stop must still be waiting; give a wrong Stop time to return
-			o.StopEarly = waitDone(stopDone, 200*time.Millisecond)
+			// Stop must still be waiting; give a wrong Stop time to return (HoldMs: the requests really need that long)
+			hold := 200 * time.Millisecond
+			if sc.HoldMs > 0 {
+				hold = time.Duration(sc.HoldMs) * time.Millisecond
+			}
+			o.StopEarly = waitDone(stopDone, hold)
 		} else {
 			// the context is over (or will be in 50ms): Stop must return although nobody releases the handlers
 			w := 10 * time.Second
@@ -538,7 +560,7 @@ func (g *gen) live(sc *scenario) *observation {
 		close(gt2.release)
 		srv2, wg2, err := g.build(sc, ports, lg2, gt2)
 		if err == nil {
-			g.lives++
+			g.count(func() { g.lives++ })
 			sd := make(chan struct{})
 			go func() { srv2.Start(context.Background()); close(sd) }()
 			ok := waitDone(sd, 15*time.Second)
@@ -589,7 +611,7 @@ func (g *gen) liveHeld(sc *scenario) *observation {
 		close(rel)
 		return o
 	}
-	g.lives++
+	g.count(func() { g.lives++ })
 	startDone := make(chan struct{})
 	go func() { srv.Start(context.Background()); close(startDone) }()
 	grpcHeld := false
@@ -706,10 +728,41 @@ func suspicious(sc *scenario, o *observation) bool {
 	return false
 }
 
+func (g *gen) count(f func()) {
+	g.mu.Lock()
+	f()
+	g.mu.Unlock()
+}
+
 func (g *gen) run(sc *scenario) {
 	if g.giveUp() {
 		return
 	}
+	g.emit(sc, g.observe(sc))
+}
+
+// startBatch runs independent lives at the same time, and in the background of the sequential scenarios (each has
+// its own server and ports); used for scenarios whose length is dominated by waiting.  join() waits for them and
+// emits their cases in the order of scs.
+func (g *gen) startBatch(scs []*scenario) (join func()) {
+	res := make([]*observation, len(scs))
+	var wg sync.WaitGroup
+	for i, sc := range scs {
+		wg.Add(1)
+		go func(i int, sc *scenario) {
+			defer wg.Done()
+			res[i] = g.observe(sc)
+		}(i, sc)
+	}
+	return func() {
+		wg.Wait()
+		for i, sc := range scs {
+			g.emit(sc, res[i])
+		}
+	}
+}
+
+func (g *gen) observe(sc *scenario) *observation {
 	var first *observation
 	var chosen *observation
 	bad := 0
@@ -721,7 +774,7 @@ func (g *gen) run(sc *scenario) {
 			o = g.live(sc)
 		}
 		if o.envProblem != "" && attempt < 2 {
-			g.envRetries++
+			g.count(func() { g.envRetries++ })
 			continue
 		}
 		if first == nil {
@@ -735,16 +788,21 @@ func (g *gen) run(sc *scenario) {
 	}
 	if chosen == nil {
 		chosen = first // reproduced every time: report it
-		if !first.StartOK || !first.StopOK {
-			g.hangs++
-		}
-		if !sc.IgnoreCancel {
-			g.reproduced++
-		}
+		g.count(func() {
+			if !first.StartOK || !first.StopOK {
+				g.hangs++
+			}
+			if !sc.IgnoreCancel {
+				g.reproduced++
+			}
+		})
 	} else if bad > 0 {
-		g.flaky++ // seen once or twice, not reproduced: counted, not reported
+		g.count(func() { g.flaky++ }) // seen once or twice, not reproduced: counted, not reported
 	}
-	o := chosen
+	return chosen
+}
+
+func (g *gen) emit(sc *scenario, o *observation) {
 	bl := func(l []bool) string {
 		p := make([]string, len(l))
 		for i, b := range l {
@@ -777,6 +835,11 @@ func (g *gen) run(sc *scenario) {
 	if sc.Immediate {
 		tags = append(tags, "immediate-stop")
 	}
+	if sc.DeadlineMs > 0 && sc.HoldMs > 0 {
+		tags = append(tags, fmt.Sprintf("stop-deadline-%.2fx-of-what-requests-need", float64(sc.DeadlineMs)/float64(sc.HoldMs)))
+	} else if sc.DeadlineMs > 0 {
+		tags = append(tags, "stop-deadline-shorter-than-requests-need")
+	}
 	if tot > 0 {
 		tags = append(tags, "requests-in-flight")
 	}
@@ -793,7 +856,7 @@ func (g *gen) run(sc *scenario) {
 		tags = append(tags, "stop-returned-error")
 	}
 	g.w.Add(cw.Case{Coq: coq, Desc: map[string]any{"scenario": sc, "observed": o}, Tags: tags,
-		Key:     fmt.Sprintf("%v|%v|%d|%v|%d|%v|%v|%v|%v", sc.Kinds, sc.Inflight, sc.Ctx, sc.Immediate, sc.DelayUs, sc.Idle, sc.TLSInCfg, sc.Restart, sc.IgnoreCancel),
+		Key:     fmt.Sprintf("%v|%v|%d|%v|%d|%v|%v|%v|%v", sc.Kinds, sc.Inflight, sc.Ctx, sc.Immediate, sc.DelayUs, sc.Idle, sc.TLSInCfg, sc.Restart, sc.IgnoreCancel) + fmt.Sprintf("|%d|%d", sc.DeadlineMs, sc.HoldMs),
 		Trivial: false})
 }
 
@@ -895,6 +958,42 @@ func main() {
 			g.run(&scenario{Group: "held", Kinds: sub, Inflight: make([]int, len(sub)), Held: held, TLSInCfg: mask%2 == 0})
 		}
 	}
+	var joinDeadline func()
+	// --- A4: Stop contexts WITH a deadline, sized relative to what the requests in flight still need (need = 2 s:
+	//     the harness releases the blocked handlers 2 s after Stop was called): much shorter and slightly shorter
+	//     (Stop must return by itself, around its deadline), slightly longer (1.7 x) and much longer (Stop must wait
+	//     for the requests, return nil, the clients get their responses) x 2 and 3 listeners x which listener has the
+	//     request.  These lives mostly wait, so they run at the same time. ---
+	{
+		const need = 2000
+		var batch []*scenario
+		sets := [][]int{{kHTTP, kHTTPS}, {kHTTP, kGRPC}, {kHTTPS, kGRPC}, {kHTTP, kHTTPS, kGRPC}}
+		for si, kinds := range sets {
+			for _, dl := range []struct{ ctx, ms int }{{2, 100}, {2, 1400}, {0, 3400}, {0, 40000}} {
+				infl := make([]int, len(kinds))
+				infl[0] = 1
+				batch = append(batch, &scenario{Group: "deadline", Kinds: kinds, Inflight: infl, Ctx: dl.ctx, DeadlineMs: dl.ms,
+					HoldMs: map[int]int{0: need, 2: 0}[dl.ctx], TLSInCfg: si%2 == 0, Idle: si%2 == 1})
+			}
+			// the request on a later listener, and on several
+			infl := make([]int, len(kinds))
+			infl[1] = 1
+			batch = append(batch, &scenario{Group: "deadline", Kinds: kinds, Inflight: infl, Ctx: 0, DeadlineMs: 3400, HoldMs: need})
+			if thorough {
+				for _, ms := range []int{2800, 3400, 5000, 9000} {
+					all := make([]int, len(kinds))
+					for i := range all {
+						all[i] = 1 + (i+si)%2
+					}
+					batch = append(batch, &scenario{Group: "deadline", Kinds: kinds, Inflight: all, Ctx: 0, DeadlineMs: ms, HoldMs: need, Idle: true})
+					one := make([]int, len(kinds))
+					one[0] = 2
+					batch = append(batch, &scenario{Group: "deadline", Kinds: kinds, Inflight: one, Ctx: 0, DeadlineMs: ms, HoldMs: need, TLSInCfg: true})
+				}
+			}
+		}
+		joinDeadline = g.startBatch(batch)
+	}
 	// --- B: Start immediately followed by Stop, with tiny pauses to move Stop relative to the provider goroutines ---
 	delays := []int{0, 0, 20, 100, 500, 2000}
 	reps := 2
@@ -935,6 +1034,7 @@ func main() {
 		}
 		g.run(sc)
 	}
+	joinDeadline()
 	g.w.Extra["scope"] = fmt.Sprintf("grid: 7 provider subsets x up to 4 in-flight patterns x 3 context kinds (with restart on the same ports for the ample ones); immediate Stop: 7 subsets x %d repetitions x %d pauses (0-%dus); %d seeded random scenarios (0-5 blocked requests per provider)", reps, len(delays), delays[len(delays)-1], nRand)
 	g.w.Extra["server_lives"] = g.lives
 	g.w.Extra["observations_not_reproduced"] = g.flaky
